@@ -271,6 +271,19 @@ Section Qi.
            | e => e
            end
     end.
+
+  (* the same with the lookup made explicit: input i names an outpoint and carries a key; the
+     entry it is compared with is the one found under ITS OWN outpoint
+     (rawdb.GetUTXOWithBatch(db, batch, txIn.PreviousOutPoint...) inside the loop body), for every
+     input, whether or not an earlier input carried the same key / consumed an entry of the same
+     owner / of the same previous transaction *)
+  Variable outpoint : Type.
+  Definition qi_lookup (utxo : outpoint -> option addr) (oins : list (outpoint * pub))
+    : list (pub * option addr) :=
+    map (fun i => (snd i, utxo (fst i))) oins.
+  Definition qi_process (utxo : outpoint -> option addr) (chain : N) (check_sig : bool) (f : qfields)
+             (oins : list (outpoint * pub)) (sg : sig) : qverdict :=
+    qi_authorised chain check_sig f (qi_lookup utxo oins) sg.
 End Qi.
 
 (* ================= correspondence cases ================= *)
